@@ -348,6 +348,29 @@ func checkShouldBuild(content string, tagList []string, st *stats) []kit.V {
 	key := func(class string) string {
 		return fmt.Sprintf("%s content=%q tags=%v", class, content, tagList)
 	}
+	if pan == nil && len(content) <= 48 {
+		// the same content as the head of a larger buffer: same verdict, content
+		// untouched, nothing written behind it
+		buf := make([]byte, len(content)+8)
+		copy(buf, content)
+		for i := len(content); i < len(buf); i++ {
+			buf[i] = 0xA5
+		}
+		var got2 bool
+		var pan2 any
+		func() {
+			defer func() { pan2 = recover() }()
+			got2 = imports.ShouldBuild(buf[:len(content)], tags)
+		}()
+		switch {
+		case pan2 != nil:
+			return []kit.V{{Key: key("shouldbuild-panic"), What: fmt.Sprintf("ShouldBuild(%q, %v) panics when the content is the head of a larger buffer: %v", content, tagList, pan2), Case: c}}
+		case string(buf[:len(content)]) != content || string(buf[len(content):]) != strings.Repeat("\xa5", 8):
+			return []kit.V{{Key: key("shouldbuild-writes-to-its-argument"), What: fmt.Sprintf("ShouldBuild(%q, %v) changed the caller's buffer: now %q", content, tagList, buf), Case: c}}
+		case got2 != got:
+			return []kit.V{{Key: key("shouldbuild-depends-on-capacity"), What: fmt.Sprintf("ShouldBuild(%q, %v) = %v for a slice of exact capacity, %v at the head of a larger buffer", content, tagList, got, got2), Case: c}}
+		}
+	}
 	if pan != nil {
 		return []kit.V{{Key: key("shouldbuild-panic"), What: fmt.Sprintf("ShouldBuild(%q, %v) panics: %v", content, tagList, pan), Case: c}}
 	}
